@@ -180,6 +180,9 @@ def run(ctx):
         bad = [i for i, x in enumerate(res) if not x]
         if bad: ctx.broken.append(f'LU model and implementation disagree on {len(bad)} case(s), first: {terms[bad[0]][:400]}')
     top = 4 if ctx.quick() else 5
+    _A = qx.to_np(qx.rand_int(ctx.rng, 4, 3, -3, 3))
+    cm.layout_sweep(ctx, qx, 'C07', 'quaternion_lu', lambda X: LUmod.quaternion_lu(X, return_p=True), _A, {'shape': [4, 3]})
+    cm.layout_sweep(ctx, qx, 'C07', 'quaternion_lu(two-output)', lambda X: LUmod.quaternion_lu(X), _A, {'shape': [4, 3]})
     want = sum(math.factorial(m) for m in range(1, top + 1))
     got = len({(m, p) for (m, p) in perms_seen if m <= top})
     ctx.cov['pivot_orders_seen'] = got; ctx.cov['pivot_orders_possible'] = want
